@@ -42,7 +42,8 @@ class UnitSplit:
     def _never_missing(self):
         """Columns of self.data that cannot hold a missing value, established from the code on every run: `turnout_factor` when
         the constructor stores the frame returned by Estimandizer.add_turnout_factor and that method defines the column as
-        nan_to_num(.., nan=<number>). (percent_expected_vote comes from the feed through a LEFT join: it CAN be missing.)"""
+        nan_to_num(.., nan=<number>); `percent_expected_vote` when the constructor fills the joined column with a number (it comes from
+        the feed through a LEFT join, so without that it CAN be missing)."""
         ctx = self.ctx
         out = set()
         try:
@@ -58,6 +59,8 @@ class UnitSplit:
                        and isinstance(nan[1], (int, float)) and nan[1] == nan[1])
             if through and guarded:
                 out.add("turnout_factor")
+            if dw and pev_filled(dw[-1][2]):
+                out.add("percent_expected_vote")
         except AnalysisError:
             pass
         return frozenset(out)
@@ -86,6 +89,20 @@ class UnitSplit:
             cat = category_of(fr)
             items.append((cond, fr, cat))
         return unexpected, nonmod, wrappers, items
+
+
+def pev_filled(data_term):
+    """the constructor stores a frame whose percent_expected_vote is  <merged frame>['percent_expected_vote'].fillna(<number>)
+    (whenever the column exists): a baseline unit the feed gives no expected vote for then has a number there (F32)"""
+    for x in ir.walk(data_term):
+        if x[0] == "setitem" and x[2] == ("const", "percent_expected_vote"):
+            v = x[3]
+            if (v[0] == "call" and v[1][0] == "attr" and v[1][2] == "fillna" and v[2] and v[2][0][0] == "const"
+                    and isinstance(v[2][0][1], (int, float)) and v[2][0][1] == v[2][0][1]
+                    and v[1][1] == ("sub", x[1], ("const", "percent_expected_vote"))
+                    and any(y[0] == "call" and y[1][0] == "attr" and y[1][2] == "merge" for y in ir.walk(x[1]))):
+                return True
+    return False
 
 
 def category_of(fr):
